@@ -1,5 +1,7 @@
 from __future__ import annotations
 
+from copy import copy
+
 from typing import Optional
 
 from excel2pycl.src.cell import Cell
@@ -100,7 +102,8 @@ class Parser:
 
         try:
             if self._entrypoint_cell:
-                CellTranslator.translate(self._entrypoint_cell, excel, context)
+                # sheet title and column letters are resolved against THIS workbook; the stored cell keeps what the caller gave
+                CellTranslator.translate(copy(self._entrypoint_cell), excel, context)
             else:
                 CellTranslator.translate_file(excel, context)
         except RecursionError:
